@@ -179,6 +179,64 @@ func loadEngine(only []string) (*Engine, error) {
 			}
 		}
 	}
+	// assumed contracts of standard-library functions and interface methods: /verif/specs/*.spec
+	specs, _ := filepath.Glob(filepath.Join(verifDir, "specs", "*.spec"))
+	sort.Strings(specs)
+	for _, sf := range specs {
+		b, err := os.ReadFile(sf)
+		if err != nil {
+			return nil, err
+		}
+		var cur string
+		var lines []rawLine
+		flush := func() error {
+			if cur == "" || len(lines) == 0 {
+				lines = nil
+				return nil
+			}
+			cf, err := parseContractLines(cur, strings.TrimPrefix(sf, verifDir+"/"), lines)
+			if err != nil {
+				return err
+			}
+			e.files = append(e.files, cf)
+			for _, fc := range cf.Funcs {
+				fc.Assumed = true
+				if fc.Trusted == "" {
+					fc.Trusted = "standard library / interface contract (documented behaviour)"
+				}
+				k := normKey(fc.Key)
+				fc.Key = k
+				if strings.HasPrefix(k, "iface:") {
+					e.byKey[k] = fc
+					continue
+				}
+				e.contracts[cur+"::"+k] = fc
+			}
+			for _, pf := range cf.Pures {
+				e.pures[cur+"::"+pf.Name] = pf
+				e.pureAny[pf.Name] = append(e.pureAny[pf.Name], pf)
+			}
+			lines = nil
+			return nil
+		}
+		for i, l := range strings.Split(string(b), "\n") {
+			t := strings.TrimSpace(l)
+			if strings.HasPrefix(t, "package ") {
+				if err := flush(); err != nil {
+					return nil, err
+				}
+				cur = strings.TrimSpace(t[len("package "):])
+				continue
+			}
+			if strings.HasPrefix(t, "//") {
+				continue
+			}
+			lines = append(lines, rawLine{l, i + 1})
+		}
+		if err := flush(); err != nil {
+			return nil, err
+		}
+	}
 	return e, nil
 }
 
@@ -343,7 +401,9 @@ func (f *Frame) finish(nreq int) {
 		f.curEnv = env
 		for i, en := range fc.Ensures {
 			g := env.evalBool(en.Expr)
+			f.curClause = en
 			f.oblige("post", fmt.Sprint(i), g, r.pos, en.Props, en.Text)
+			f.curClause = nil
 		}
 		f.curEnv = nil
 		f.frameCheck(r, env)
